@@ -50,13 +50,16 @@ def run(ctx):
         spec1['apps'] = [a for a in spec1['apps'] if a['id'] == 'vapp']
         done += 1
         seed = ctx.seed * 4099 + tries
-        for split in itertools.product(['default', 'other'], repeat=len(names)):
+        for k, split in enumerate(itertools.product(['default', 'other'], repeat=len(names))):
             if ctx.time_left() < 20:
                 break
+            # every other split: the router also answers db_for_read/db_for_write with a catch-all 'default'
+            catch_all = 'default' if k % 2 else None
             routes = {('vapp', nm.lower()): db for nm, db in zip(names, split)}
             table_of = {m['name']: m['table'] for m in spec['apps'][0]['models']}
-            rep = {'spec': spec, 'routes': {nm: db for nm, db in zip(names, split)}, 'mutations': muts, 'seed': seed}
-            evorig.set_routes(routes)
+            rep = {'spec': spec, 'routes': {nm: db for nm, db in zip(names, split)}, 'mutations': muts, 'seed': seed,
+                   'catch_all': catch_all}
+            evorig.set_routes(routes, catch_all)
             try:
                 evorig.fresh_databases()
                 evorig.clear_evolutions()
@@ -73,6 +76,7 @@ def run(ctx):
                 ctx.case({'routes': rep['routes'], 'mutations': [sigs.model_mutation(m) for m in muts]},
                          nontrivial=len(set(split)) == 2, sample_cap=5)
                 ctx.count('split:%s' % ('both' if len(set(split)) == 2 else 'one-sided'))
+                ctx.count('router_catch_all:%s' % catch_all)
                 for alias in ('default', 'other'):
                     want = sorted(table_of[nm] for nm, db in zip(names, split) if db == alias)
                     have = user_tables(alias)
